@@ -59,14 +59,19 @@ def _result_clause(a, res, cx):
     """True only if some recorded span of the same line at least touches the needle (an occurrence clear of every
     recorded span is never suppressed); False only if no recorded span shares a position with it (two replacements
     are never applied to the same characters). Whether merely touching spans count is left open: C03 does not say."""
+    j = z3.Int("j!res")
+    inside = z3.And(j >= 0, j < a.haystack.n)
+    touches_some = z3.Exists([j], z3.And(inside, _touches_or_intersects(a, j)))
+    shares_some = z3.Exists([j], z3.And(inside, _shares_a_position(a, j)))
     k = cx.ghost.get("loop_k")
     if res is True:
-        if k is None:
-            return False
-        return z3.And(V.z3int(k) >= 0, V.z3int(k) < a.haystack.n, _touches_or_intersects(a, V.z3int(k)))
+        if k is not None:  # returned from inside the loop: the witness is the current index
+            return z3.And(V.z3int(k) >= 0, V.z3int(k) < a.haystack.n, _touches_or_intersects(a, V.z3int(k)))
+        return touches_some
     if res is False:
-        return _none_before(a, SInt(a.haystack.n))
-    return False
+        return z3.Not(shares_some)
+    r = V.to_z3_bool(v_truthy(res))  # a symbolic answer (e.g. an any(...) expression)
+    return z3.And(z3.Implies(r, touches_some), z3.Implies(z3.Not(r), z3.Not(shares_some)))
 
 
 c = REG.new("bumpver.parse._has_overlap")
